@@ -331,6 +331,119 @@ impl<'a> PoolSet<'a> {
     }
 }
 
+/// Public wrappers around the crate-private pool API for model-based conformance checking.
+/// Only compiled with `--cfg naijascript_verif`; nothing in here changes pool behaviour.
+#[cfg(naijascript_verif)]
+pub mod verif {
+    use std::ptr::NonNull;
+
+    use super::{Arena, ArenaString, CLASS_COUNT, Pool, PoolSet, SLOT_COUNTS, SLOT_SIZES};
+
+    /// `(live, free, virgin)` as the pool itself counts them.
+    fn counters_of(pool: &Pool) -> (u32, u32, u32) {
+        (pool.live_count.get(), pool.free.len(), pool.block.slot_count - pool.block.bump.get())
+    }
+
+    /// `(address of the first slot, slot size, slot count)`.
+    fn block_of(pool: &Pool) -> (usize, u32, u32) {
+        (pool.block.base.as_ptr() as usize, pool.block.slot_size, pool.block.slot_count)
+    }
+
+    /// The class table `(slot size, slot count)` of [`PoolSet::new`].
+    pub fn class_table() -> Vec<(u32, u32)> {
+        (0..CLASS_COUNT as usize).map(|i| (SLOT_SIZES[i], SLOT_COUNTS[i])).collect()
+    }
+
+    /// The size-to-class mapping used by [`PoolSet`].
+    pub fn size_class(n: u32) -> Option<u32> {
+        super::size_class(n)
+    }
+
+    /// A single size class.
+    pub struct VPool(Pool);
+
+    impl VPool {
+        pub fn new(arena: &Arena, slot_size: u32, slot_count: u32) -> Self {
+            Self(Pool::new(arena, slot_size, slot_count))
+        }
+
+        pub fn alloc(&self) -> Option<NonNull<[u8]>> {
+            self.0.alloc()
+        }
+
+        /// # Safety
+        ///
+        /// Same contract as the pool's own `dealloc`.
+        pub unsafe fn dealloc(&self, ptr: NonNull<u8>) {
+            unsafe { self.0.dealloc(ptr) }
+        }
+
+        pub fn contains(&self, ptr: *const u8) -> bool {
+            self.0.contains(ptr)
+        }
+
+        pub fn counters(&self) -> (u32, u32, u32) {
+            counters_of(&self.0)
+        }
+
+        pub fn block(&self) -> (usize, u32, u32) {
+            block_of(&self.0)
+        }
+    }
+
+    /// All size classes, as the runtime uses them.
+    pub struct VPoolSet<'a>(PoolSet<'a>);
+
+    impl<'a> VPoolSet<'a> {
+        pub fn new(arena: &'a Arena) -> Self {
+            Self(PoolSet::new(arena))
+        }
+
+        /// The real class sizes with other slot counts (missing entries keep the real count).
+        pub fn with_counts(arena: &'a Arena, counts: &[u32]) -> Self {
+            let pools = std::array::from_fn(|i| {
+                Pool::new(arena, SLOT_SIZES[i], counts.get(i).copied().unwrap_or(SLOT_COUNTS[i]))
+            });
+            Self(PoolSet { pools, arena })
+        }
+
+        pub fn alloc(&self, size: u32) -> NonNull<[u8]> {
+            self.0.alloc(size)
+        }
+
+        /// # Safety
+        ///
+        /// Same contract as `PoolSet::dealloc`.
+        pub unsafe fn dealloc(&self, ptr: NonNull<u8>, size: u32) {
+            unsafe { self.0.dealloc(ptr, size) }
+        }
+
+        pub fn contains(&self, ptr: *const u8) -> bool {
+            self.0.contains(ptr)
+        }
+
+        pub fn alloc_str(&self, s: &str) -> ArenaString<'a> {
+            self.0.alloc_str(s)
+        }
+
+        pub fn arena(&self) -> &'a Arena {
+            self.0.arena()
+        }
+
+        pub fn class_count(&self) -> usize {
+            self.0.pools.len()
+        }
+
+        pub fn counters(&self, class: usize) -> (u32, u32, u32) {
+            counters_of(&self.0.pools[class])
+        }
+
+        pub fn block(&self, class: usize) -> (usize, u32, u32) {
+            block_of(&self.0.pools[class])
+        }
+    }
+}
+
 #[cfg(test)]
 mod tests {
     use super::*;
